@@ -126,8 +126,11 @@ func newC08Monitor(sc *Scen, sp c08Spec, inst, local string, ha []string) *c08Mo
 		if m.it == nil {
 			return
 		}
+		if c.Class == "ss_disable" && c.Host == local && w.LivePendingLocked(local) > 0 {
+			m.sc.Violate("C08", "semi-sync-disabled-with-commits-pending", fmt.Sprintf("%s switched semi-sync off on %s while %d commits of connected clients were still waiting for acknowledgement (they are then acknowledged to clients although no replica has them)", inst, local, w.LivePendingLocked(local)))
+		}
 		if c.Class == "ss_disable" && c.Host == local && w.PendingLocked(local) > 0 {
-			m.sc.Violate("C08", "semi-sync-disabled-with-commits-pending", fmt.Sprintf("%s switched semi-sync off on %s while %d commits were still waiting for acknowledgement (they are then acknowledged to clients although no replica has them)", inst, local, w.PendingLocked(local)))
+			m.sc.Cover("stuck-master-released-after-sessions-dropped")
 		}
 	})
 	s.W.AfterStmt = append(s.W.AfterStmt, func(w *world.World, c *world.StmtCtx) {
